@@ -79,6 +79,17 @@ pub struct TransWithMarker(Tr, Unit);
 #[derive(Decode)]
 #[repr(transparent)]
 pub struct TransTwoMarkers(Tr, Unit, Unit);
+/// `repr(C)` struct with a skipped field whose `Default` owns heap memory, between decoded fields
+#[derive(Default)]
+pub struct ScratchBuf(Box<u64>, Vec<u8>);
+#[derive(Decode)]
+#[repr(C)]
+pub struct ReprCSkip {
+	a: Tr,
+	#[codec(skip)]
+	s: ScratchBuf,
+	b: Tr,
+}
 #[derive(Decode)]
 #[repr(transparent)]
 pub struct TransMid(Unit, PhantomData<u16>, Tr, Unit, Unit);
@@ -388,6 +399,31 @@ fn main() {
 		b5.extend_from_slice(&bytes);
 		observe(&format!("Box<TransMid> {}", label), move || <Box<TransMid>>::decode(&mut &b5[..]));
 		unsafe { CASES += 5 };
+	}
+	// a skipped field with a heap-owning default between two decoded fields, decoded behind holders
+	for (label, bytes) in [("second field bad", vec![0u8, 1]), ("second field missing", vec![0u8]), ("second field panics", vec![0u8, 2]), ("fine", vec![0u8, 0])] {
+		let b1 = bytes.clone();
+		observe(&format!("ReprCSkip {}", label), move || ReprCSkip::decode(&mut &b1[..]));
+		let b2 = bytes.clone();
+		observe(&format!("Box<ReprCSkip> {}", label), move || <Box<ReprCSkip>>::decode(&mut &b2[..]));
+		let b3 = bytes.clone();
+		observe(&format!("Arc<ReprCSkip> {}", label), move || <Arc<ReprCSkip>>::decode(&mut &b3[..]));
+		let mut b4 = vec![0u8, 0];
+		b4.extend_from_slice(&bytes);
+		observe(&format!("[ReprCSkip; 2] second {}", label), move || <[ReprCSkip; 2]>::decode(&mut &b4[..]));
+		unsafe { CASES += 4 };
+	}
+	// shared holders of payloads above 16 KiB (Tr is 16 bytes: 1100 of them), damaged part-way
+	#[cfg(feature = "full")]
+	for (label, bad_at, tail) in [("malformed late", 1000usize, 1u8), ("panics late", 1090, 2), ("fine", 1100, 0)] {
+		let mut bytes = vec![0u8; bad_at];
+		bytes.push(tail);
+		bytes.extend_from_slice(&[0u8; 8]);
+		let b1 = bytes.clone();
+		observe(&format!("Rc<[Tr; 1100]> {}", label), move || <Rc<[Tr; 1100]>>::decode(&mut &b1[..]));
+		let b2 = bytes.clone();
+		observe(&format!("Arc<[Tr; 1100]> {}", label), move || <Arc<[Tr; 1100]>>::decode(&mut &b2[..]));
+		unsafe { CASES += 2 };
 	}
 	// zero-sized payloads behind holders
 	observe("Box<()>", || <Box<()>>::decode(&mut &[][..]));
